@@ -4,7 +4,7 @@ import re
 import time
 
 from common import REPO, Rule, finish
-from hirtab import ANY, C, T, adt_variants, callees, candidates, lit_value
+from hirtab import ANY, C, T, adt_variants, callees, callees_inlined, candidates, lit_value
 from hirutil import callee, find, lit_str, strip, walk
 
 ENTITIES = {"<": "&lt;", ">": "&gt;", "&": "&amp;", "'": "&apos;", '"': "&quot;"}
@@ -213,7 +213,8 @@ def rule_char_decoder(facts, rid):
         for h in helpers:
             hf = facts.hir_fn(h)
             if hf is not None:
-                ds += decoders(hf["body"])
+                # the decoder may sit in a helper of the helper (e.g. the closure that turns one bound into a byte offset, made a function)
+                ds += sorted({c for c in callees_inlined(facts, hf["body"], 2) if DEC.match(c)})
         t4.examined(("range", kind), True, {"site": f"slicing {kind} strings", "helpers": helpers, "decoders": sorted(set(ds))})
         if want and not ds:
             t4.violate(f"range/{kind}", f"slicing a text string positions with {helpers}, none of which decodes characters", where=arm["sp"])
